@@ -12,8 +12,8 @@ use error::ParserResult;
 use nom::{
     branch::alt,
     bytes::complete::{tag, take_until},
-    character::complete::{char, multispace1},
-    combinator::{into, map, opt, recognize},
+    character::complete::{alphanumeric1, char, multispace1, satisfy},
+    combinator::{into, map, opt, recognize, value, verify},
     multi::{many0, many1},
     sequence::{delimited, pair, preceded, terminated},
     Parser,
@@ -114,7 +114,22 @@ pub(crate) fn asn_module(
 fn encoding_control(input: Input<'_>) -> ParserResult<'_, &str> {
     into_inner(delimited(
         skip_ws_and_comments(tag(ENCODING_CONTROL)),
-        take_until(END),
+        // The encoding instructions are not interpreted. The section runs up to the word `END`,
+        // which does not end it inside a comment, a character string or a longer word
+        recognize(many0(skip_ws_and_comments(alt((
+            value((), delimited(char('"'), take_until("\""), char('"'))),
+            value(
+                (),
+                verify(
+                    into_inner(recognize(pair(
+                        alphanumeric1,
+                        many0(preceded(char('-'), alphanumeric1)),
+                    ))),
+                    |word: &str| word != END,
+                ),
+            ),
+            value((), satisfy(|c| !c.is_alphanumeric())),
+        ))))),
         end,
     ))
     .parse(input)
